@@ -23,7 +23,7 @@
 (* (implicit line joining); elsewhere it ends the logical line.  So a child   *)
 (* whose text has a line break outside its own brackets needs parentheses     *)
 (* unless the slot is inside an open bracket: NeedsParsML.                    *)
-EXTENDS Integers, Sequences, FiniteSets
+EXTENDS Integers, Sequences, FiniteSets, TLC
 
 (* ---------------------------------------------------------------------- *)
 (* expression ladder (python.gram: expression > disjunction > conjunction  *)
@@ -101,14 +101,16 @@ BinRightNT(op) == IF op = "Pow" THEN "factor" ELSE LadderNT(Level(op) + 1)
 (* nonterminals that slots use: smallest ladder level admitted and the top *)
 (* alternatives admitted by name                                           *)
 ExprNT ==
-  [ assign_rhs            |-> [min |-> L_TEST, tops |-> {"Tuple", "Yield", "Yield0", "YieldFrom"}],  \* (yield_expr | star_expressions)
-    star_expressions      |-> [min |-> L_TEST, tops |-> {"Tuple"}],
+  [ assign_rhs            |-> [min |-> L_TEST, tops |-> {"Tuple", "Starred", "Yield", "Yield0", "YieldFrom"}],  \* (yield_expr | star_expressions)
+    (* star_expressions: star_expression (',' star_expression)+ [','] | star_expression ',' | star_expression  *)
+    (* -- a lone `*a` is grammatical here (`x = *a` is refused by the compiler, not by the parser)             *)
+    star_expressions      |-> [min |-> L_TEST, tops |-> {"Tuple", "Starred"}],
     star_expression       |-> [min |-> L_TEST, tops |-> {"Starred"}],               \* element of a bare tuple
     star_named_expression |-> [min |-> L_TEST, tops |-> {"NamedExpr", "Starred"}],  \* element of [..], {..}, (..,)
     named_expression      |-> [min |-> L_TEST, tops |-> {"NamedExpr"}],
     args_item             |-> [min |-> L_TEST, tops |-> {"NamedExpr", "Starred", "StarredOr"}],  \* '*' expression
     slices                |-> [min |-> L_TEST, tops |-> {"NamedExpr", "Tuple", "Slice"}],
-    slice_item            |-> [min |-> L_TEST, tops |-> {"NamedExpr", "Slice", "Starred"}],
+    slice_item            |-> [min |-> L_TEST, tops |-> {"NamedExpr", "Slice", "Starred", "StarredOr"}],  \* '*' expression
     subject_expr          |-> [min |-> L_TEST, tops |-> {"NamedExpr", "Tuple"}],
     expression            |-> [min |-> L_TEST, tops |-> {}],
     disjunction           |-> [min |-> L_OR, tops |-> {}],
@@ -130,10 +132,13 @@ ExprNTs == DOMAIN ExprNT
 
 (* assignment targets (star_targets, star_target, single_target, del_target, t_primary/star_atom)        *)
 TargetNT ==
-  [ star_targets    |-> [kinds |-> {"Name", "Attribute", "Subscript", "List", "Tuple"}, bareTuple |-> TRUE],
-    star_target     |-> [kinds |-> {"Name", "Attribute", "Subscript", "List", "Tuple"}, bareTuple |-> FALSE],
-    star_target_elt |-> [kinds |-> {"Name", "Attribute", "Subscript", "List", "Tuple", "Starred"}, bareTuple |-> FALSE],
-    del_target      |-> [kinds |-> {"Name", "Attribute", "Subscript", "List", "Tuple"}, bareTuple |-> FALSE],
+  (* star_target: '*' (!'*' star_target) | target_with_star_atom -- a lone `*a = b` is grammatical (refused   *)
+  (* by the compiler); `() = b` is a valid (empty) target                                                     *)
+  [ star_targets    |-> [kinds |-> {"Name", "Attribute", "Subscript", "List", "Tuple", "Tuple0", "Starred"}, bareTuple |-> TRUE],
+    star_target     |-> [kinds |-> {"Name", "Attribute", "Subscript", "List", "Tuple", "Tuple0", "Starred"}, bareTuple |-> FALSE],
+    star_target_elt |-> [kinds |-> {"Name", "Attribute", "Subscript", "List", "Tuple", "Tuple0", "Starred"}, bareTuple |-> FALSE],
+    del_target      |-> [kinds |-> {"Name", "Attribute", "Subscript", "List", "Tuple", "Tuple0"}, bareTuple |-> FALSE],
+    target_with_star_atom |-> [kinds |-> {"Name", "Attribute", "Subscript", "List", "Tuple", "Tuple0"}, bareTuple |-> FALSE],
     single_target   |-> [kinds |-> {"Name", "Attribute", "Subscript"}, bareTuple |-> FALSE],
     name_only       |-> [kinds |-> {"Name"}, bareTuple |-> FALSE],
     name_or_attr    |-> [kinds |-> {"Name", "Attribute"}, bareTuple |-> FALSE] ]
@@ -211,7 +216,7 @@ TargetSlots == {
   <<"withitem.optional_vars", "star_target">>, <<"Delete.targets", "del_target">>,
   <<"AugAssign.target", "single_target">>, <<"NamedExpr.target", "name_only">>,
   <<"Tuple.elts.store", "star_target_elt">>, <<"List.elts.store", "star_target_elt">>,
-  <<"Starred.value.store", "star_target">>, <<"MatchClass.cls", "name_or_attr">> }
+  <<"Starred.value.store", "target_with_star_atom">>, <<"MatchClass.cls", "name_or_attr">> }
 
 PatSlots == {
   <<"match_case.pattern", "patterns">>, <<"MatchAs.pattern", "or_pattern">>,
@@ -229,9 +234,10 @@ PatSlots == {
 AllSlots == ExprSlots \cup TargetSlots \cup PatSlots
 SlotIds  == {s[1] : s \in AllSlots}
 NT(id)   == (CHOOSE s \in AllSlots : s[1] = id)[2]
-SlotCls(id) == IF \E s \in ExprSlots : s[1] = id THEN "load"
-               ELSE IF \E s \in TargetSlots : s[1] = id THEN "store" ELSE "pat"
-KindsFor(id) == IF SlotCls(id) = "pat" THEN PatKinds ELSE ExprKinds
+ClsOfNT(nt) == IF nt \in ExprNTs THEN "load" ELSE IF nt \in TargetNTs THEN "store" ELSE "pat"
+SlotCls(id) == ClsOfNT(NT(id))
+KindsForNT(nt) == IF ClsOfNT(nt) = "pat" THEN PatKinds ELSE ExprKinds
+KindsFor(id) == KindsForNT(NT(id))
 IsSlot(id) == id \in SlotIds
 
 (* fill slots: the nonterminal the *parent* (now an as_pattern) must fit                                   *)
@@ -244,31 +250,51 @@ FillOuterNT(id) ==
 IsFill(id) == FillOuterNT(id) # "none"
 
 (* ---------------------------------------------------------------------- *)
-(* validity and grouping                                                    *)
+(* validity and grouping.  The operators with suffix N take the slot's      *)
+(* nonterminal as an argument (nt = NT(id)); the plain ones look it up.     *)
+
 (* `1.real` is tokenised as the float `1.` followed by a name: a decimal integer literal before `.` needs   *)
 (* parentheses (or a space) for lexical reasons although it is an atom                                       *)
-Lexical(id, c) == c = "Int" /\ NT(id) = "primary" /\ id = "Attribute.value"
+Lexical(id, c) == c = "Int" /\ id = "Attribute.value"
 
-Valid(id, c) ==
-  CASE SlotCls(id) = "load" ->
+(* NAME ':=' and name_or_attr '(' take a bare name (dotted name): no parenthesised form exists             *)
+ParAllowedN(nt) == nt \notin {"name_only", "name_or_attr"}
+
+(* `with (a, b): pass` is the parenthesised form of *two* with-items: a tuple as the only context          *)
+(* expression without `as` needs two pairs of parentheses                                                   *)
+NeedsDoublePars(id, c) == id = "withitem.context_expr" /\ c = "Tuple"
+
+(* grammatical, but refused by CPython's *compiler* ("can't use starred expression here"): a lone `*a` as  *)
+(* star_expressions / star_target.  Such requests are outside the property (pfst refuses them too).         *)
+CompilerRefusesN(nt, c) == c \in {"Starred", "StarredOr"}
+                           /\ nt \in {"assign_rhs", "star_expressions", "star_targets", "star_target"}
+
+ValidN(nt, c) ==
+  CASE ClsOfNT(nt) = "load" ->
          /\ c \in ExprKinds
-         /\ (c \in {"Starred", "StarredOr"} => "Starred" \in ExprNT[NT(id)].tops)   \* `(*a)` is never an expression
-         /\ (c = "Slice" => "Slice" \in ExprNT[NT(id)].tops)
-    [] SlotCls(id) = "store" -> c \in TargetNT[NT(id)].kinds
+         /\ (c \in {"Starred", "StarredOr"} => "Starred" \in ExprNT[nt].tops)   \* a parenthesised star is never an expression
+         /\ (c = "Slice" => "Slice" \in ExprNT[nt].tops)
+    [] ClsOfNT(nt) = "store" -> c \in TargetNT[nt].kinds
     [] OTHER -> /\ c \in PatKinds
-                /\ (c = "MatchStar" => "MatchStar" \in PatNT[NT(id)].tops)
+                /\ (c = "MatchStar" => "MatchStar" \in PatNT[nt].tops)
 
-Bare(id, c) ==
-  /\ Valid(id, c)
+BareN(id, nt, c) ==
+  /\ ValidN(nt, c)
   /\ ~Lexical(id, c)
-  /\ CASE SlotCls(id) = "load" ->
-            IF c \in TopKinds THEN c \in ExprNT[NT(id)].tops ELSE Level(c) >= ExprNT[NT(id)].min
-       [] SlotCls(id) = "store" -> (c = "Tuple" => TargetNT[NT(id)].bareTuple)
-       [] OTHER -> IF c \in PatTop THEN c \in PatNT[NT(id)].tops ELSE PLevel(c) >= PatNT[NT(id)].min
+  /\ CASE ClsOfNT(nt) = "load" ->
+            IF c \in TopKinds THEN c \in ExprNT[nt].tops ELSE Level(c) >= ExprNT[nt].min
+       [] ClsOfNT(nt) = "store" -> (c = "Tuple" => TargetNT[nt].bareTuple)
+       [] OTHER -> IF c \in PatTop THEN c \in PatNT[nt].tops ELSE PLevel(c) >= PatNT[nt].min
 
 (* `*a or b` is an argument but not a list element: there the *operand* of the star needs the parentheses *)
-NeedsInner(id, c) == c = "StarredOr" /\ Valid(id, c) /\ "StarredOr" \notin ExprNT[NT(id)].tops
-NeedsPars(id, c)  == Valid(id, c) /\ ~Bare(id, c) /\ ~NeedsInner(id, c)
+NeedsInnerN(nt, c) == c = "StarredOr" /\ ValidN(nt, c) /\ "StarredOr" \notin ExprNT[nt].tops
+NeedsParsN(id, nt, c) == ValidN(nt, c) /\ ~BareN(id, nt, c) /\ ~NeedsInnerN(nt, c)
+
+Valid(id, c)      == ValidN(NT(id), c)
+Bare(id, c)       == BareN(id, NT(id), c)
+NeedsInner(id, c) == NeedsInnerN(NT(id), c)
+NeedsPars(id, c)  == NeedsParsN(id, NT(id), c)
+ParAllowed(id)    == ParAllowedN(NT(id))
 
 (* after the fill the parent is an as_pattern                                                              *)
 NeedsParentPars(id) == IsFill(id) /\ P_AS < PatNT[FillOuterNT(id)].min
@@ -277,8 +303,12 @@ NeedsParentPars(id) == IsFill(id) /\ P_AS < PatNT[FillOuterNT(id)].min
 (* break, `selfEnc` = every line break of the child is inside the child's own brackets / string token     *)
 NeedsParsML(depth, ml, selfEnc) == ml /\ ~selfEnc /\ depth = 0
 
-Row(id, c) == [slot |-> id, child |-> c, cls |-> SlotCls(id), nt |-> NT(id), valid |-> Valid(id, c),
-               needs |-> NeedsPars(id, c), inner |-> NeedsInner(id, c), parent |-> NeedsParentPars(id)]
+(* everything the specification says about one (slot, kind)                                                *)
+Judge(id, c) == LET nt == NT(id) IN
+  [slot |-> id, child |-> c, cls |-> ClsOfNT(nt), nt |-> nt, valid |-> ValidN(nt, c),
+   parok |-> ParAllowedN(nt), dbl |-> NeedsDoublePars(id, c), comp |-> ~CompilerRefusesN(nt, c),
+   needs |-> NeedsParsN(id, nt, c), inner |-> NeedsInnerN(nt, c), parent |-> NeedsParentPars(id)]
+Row(id, c) == Judge(id, c)
 Cases == {<<id, c>> : id \in SlotIds, c \in ExprKinds \cup PatKinds}
 RealCases == {p \in Cases : p[2] \in KindsFor(p[1])}
 =============================================================================
